@@ -8,6 +8,8 @@
 #include <unistd.h>
 #include <sys/wait.h>
 
+static void udcb(hwloc_topology_t t, hwloc_obj_t o, const char *name, const void *buf, size_t len) { (void)t; (void)o; (void)name; (void)buf; (void)len; }
+static int with_cb;
 static int try_buf(const char *x)
 {
   pid_t pid = fork(); int st;
@@ -16,6 +18,7 @@ static int try_buf(const char *x)
     memcpy(copy, x, n);
     fclose(stderr);
     hwloc_topology_init(&t);
+    if (with_cb) hwloc_topology_set_userdata_import_callback(t, udcb);
     if (!hwloc_topology_set_xmlbuffer(t, copy, (int)n)) hwloc_topology_load(t);
     hwloc_topology_destroy(t);
     _exit(0);
@@ -60,6 +63,14 @@ int main(void)
       TREE "<distances2 type=\"NUMANode\" nbobjs=\"3\" kind=\"5\" indexing=\"os\">" DTAIL,
     };
     for (i = 0; i < sizeof(docs) / sizeof(*docs) && !bad; i++) bad |= try_buf(docs[i]);
+    /* userdata elements, with an import callback; the last bytes of the buffer matter: run under a malloc checker for over-reads */
+    {
+      static const char *ud[] = { "<topology version=\"2.0\">" M "<userdata length=\"0\">", "<topology version=\"2.0\">" M "<userdata length=\"0\"/>", "<topology version=\"2.0\">" M "<userdata length=\"1\">x",
+                                  "<topology version=\"2.0\">" M "<userdata length=\"0\"></userdata>", "<topology version=\"2.0\">" M "<userdata name=\"a\" length=\"0\" encoding=\"base64\">" };
+      with_cb = 1;
+      for (i = 0; i < sizeof(ud) / sizeof(*ud) && !bad; i++) bad |= try_buf(ud[i]);
+      with_cb = 0;
+    }
   }
   if (!bad) printf("xmlbuf: no buffer crashed the loader\n");
   return bad;
